@@ -314,6 +314,8 @@ class Gen:
                      + ['alias'] * 3 + (['star'] * 2 if r.random() < self.p_star else []))
         shadowed = False
         has_nested = False
+        used_global: set = set()     # module-level names this class body has already read (they cannot be rebound later:
+                                     # the final-state Spec is only adequate when every use follows the binding it sees)
 
         def lookup(name: str) -> Optional[Value]:
             if name in scope:
@@ -342,7 +344,7 @@ class Gen:
 
         def free_for_shadow() -> Optional[str]:
             # a name bound at module level but not in this class body (the class body will rebind it)
-            cands = [k for k in self.ns[m] if k not in scope and not k.startswith('__')]
+            cands = [k for k in self.ns[m] if k not in scope and not k.startswith('__') and k not in used_global]
             return r.choice(cands) if cands else None
 
         def mark_shadowing() -> None:
@@ -509,8 +511,8 @@ class Gen:
                 if rel is not None:
                     level, modname = rel
                 privs = [n for n in self.ns[x] if n.startswith('_') and not n.startswith('__')
-                         and n not in scope and n not in subnames]
-                if privs:
+                         and n not in scope and n not in subnames and n not in names]
+                if privs and al is None:
                     self.feat('star_source_binds_private_names')
                     if r.random() < 0.6:
                         # the importer already binds one of the private names the star import must NOT copy
@@ -534,6 +536,8 @@ class Gen:
                     continue
                 first = r.choice(vis)
                 v = lookup(first)
+                if in_class and first not in scope:
+                    used_global.add(first)
                 parts = [first]
                 for _ in range(r.choice([0, 1, 1, 2])):
                     assert v is not None
